@@ -104,6 +104,50 @@ func suiteC10Instr(c *Ctx) {
 			c.Cov.Eval(fmt.Sprintf("%v %s %d %d", cached, errTok, elapsed, k), errIn != nil || elapsed <= 0 || k > 0)
 			c.Cov.Check(c.Drv, line, "c10-exec")
 		}
+		// one Call used re-entrantly (a recursive function instrumented with one Call): every Exec runs its function once
+		// and records its OWN elapsed time - inner ones first
+		{
+			depth := r.Range(2, 4)
+			ds := make([]int64, depth)
+			for i := range ds {
+				ds[i] = int64(r.Range(1, 500)) * int64(time.Millisecond)
+			}
+			w.log().Take()
+			var rec func(level int) error
+			runs := 0
+			rec = func(level int) error {
+				return call.Exec(func() error {
+					runs++
+					now = now.Add(time.Duration(ds[level]))
+					if level+1 < depth {
+						return rec(level + 1)
+					}
+					return nil
+				})
+			}
+			errTop := rec(0)
+			var got []int64
+			for _, e := range w.log().Take() {
+				if e.Kind == "timer" {
+					got = append(got, e.I)
+				}
+			}
+			// the innermost Exec stops first: its latency is ds[depth-1], the next ds[depth-2]+ds[depth-1], ...
+			want := make([]int64, 0, depth)
+			sum := int64(0)
+			for i := depth - 1; i >= 0; i-- {
+				sum += ds[i]
+				want = append(want, sum)
+			}
+			c.Cov.Hit("exec.nested-on-one-call")
+			if errTop != nil || runs != depth || fmt.Sprint(got) != fmt.Sprint(want) {
+				c.Cov.Fail(Failure{Kind: "violated", Clause: "one-latency-recorded", Signature: "c10-nested-exec-on-one-call",
+					Line:  fmt.Sprintf("cached=%v: one Call, Exec nested %d deep on one goroutine, the clock advancing %v inside the levels", cached, depth, ds),
+					Reply: fmt.Sprintf("functions run %d times, error %v, latencies recorded %v, elapsed per Exec (inner first) %v", runs, errTop, got, want)})
+			}
+			tally.VerifReportOnce(w.root)
+			w.log().Take()
+		}
 		// stopwatches
 		tm := sc.Timer("t")
 		h := sc.Histogram("h", tally.DurationBuckets{time.Millisecond, time.Second})
